@@ -117,6 +117,9 @@ func (c *XAConn) ExecContext(ctx context.Context, query string, args []driver.Na
 // BeginTx like common transaction. but it just exec XA START
 func (c *XAConn) BeginTx(ctx context.Context, opts driver.TxOptions) (driver.Tx, error) {
 	if !tm.IsGlobalTx(ctx) {
+		// a plain local transaction: whatever global transaction this connection served before is over
+		// (a pinned connection is not reset by database/sql between statements)
+		c.txCtx = types.NewTxCtx()
 		tx, err := c.Conn.BeginTx(ctx, opts)
 		return tx, err
 	}
